@@ -26,6 +26,7 @@ F_GRAM = "C20-bloom-gram-phrase"
 F_MATCHEQ = "C20-matchphrase-key-as-equality"
 F_LIKE = "C20-like-on-key-panics"
 F_NULL = "C20-null-key-sort-order"
+F_VERT = "C20-vertical-filter-uncovered-column"
 STROPS = ("match", "ipinrange", "like", "matchop")
 OPS = {"=": "Ceq", "!=": "Cne", "<": "Clt", "<=": "Cle", ">": "Cgt", ">=": "Cge"}
 
@@ -165,7 +166,7 @@ def tree_fold(t, f):
     return (a and b) if t[0] == "and" else (a or b)
 
 
-def bloom_seg_tree(t, seg, corrected=False):
+def bloom_seg_tree(t, seg, corrected=False, vmode="repaired"):
     """per-segment expression with the measured single-predicate hits. corrected: a gram / token-less phrase (finding
     C20-bloom-gram-phrase) counts as hit where a row of the segment matches that predicate."""
     f0 = t["schema"][0]
@@ -179,6 +180,12 @@ def bloom_seg_tree(t, seg, corrected=False):
             h = ob["hits"][seg] != 0
             if corrected and (ob.get("gram") or ob.get("notoken")) and ob["amatch"][seg]:
                 h = True
+        if vmode == "current" and t["in"].get("vertical") and im and not fc:
+            # today's VerticalFilterReader.hitExpr: a MATCHPHRASE on a column outside splitMap has no hashes -> "absent"
+            # (the hashes are keyed by the phrase text only: a phrase that also occurs on the filter's column borrows its hashes)
+            same = [o for o, b in zip(t["atoms"], batoms(t["in"]["cond"])) if b["op"] == "match" and b["col"] == f0 and b["lit"] == a["lit"]]
+            h = (same[0]["hits"][seg] != 0) if same and same[0].get("hits") else False
+            return (True, True, a["col"] in t["schema"], h)
         return (fc, im, a["col"] in t["schema"], h)
     return bloom_tree(t["in"]["cond"], leaf, [0])
 
@@ -190,9 +197,20 @@ def bloom_predict(tree):
 
 def bloom_stream(ck, cases):
     """direct oracle + model correspondence for the bloom cases; returns (verdicts, broken list)"""
-    verdicts = {"known_gram": 0, "violation": 0}
+    verdicts = {"known_gram": 0, "known_vert": 0, "violation": 0}
     broken = []
     with_reader = [t for t in cases if t["schema"] and not t["err"] and all(k in (0, 1) for k in t["kept"])]
+    vert = [t for t in with_reader if t["in"].get("vertical")]
+
+    def agrees(t, vmode):
+        return all(bloom_predict(bloom_seg_tree(t, sgi, vmode=vmode)) == (t["kept"][sgi] == 1) for sgi in range(t["segcnt"]))
+    if all(agrees(t, "repaired") for t in vert):
+        vmode = "repaired"
+    elif all(agrees(t, "current") for t in vert):
+        vmode = "current"
+    else:
+        vmode = "repaired"   # neither: the coqc comparison below reports the disagreement
+    verdicts["vertical_reader"] = vmode if vert else None
     # model correspondence through coqc
     shard = 400
     files = []
@@ -202,7 +220,7 @@ def bloom_stream(ck, cases):
         for t in chunk:
             segs = []
             for sgi in range(t["segcnt"]):
-                tr = bloom_seg_tree(t, sgi)
+                tr = bloom_seg_tree(t, sgi, vmode=vmode)
                 term = tree_coq(("atom", None)) if False else tree_coq(_coq_atoms(tr))
                 segs.append("(%s, %s)" % (term, coq_bool(t["kept"][sgi] == 1)))
             items.append(coq_list(segs))
@@ -226,6 +244,13 @@ def bloom_stream(ck, cases):
                 # does the finding's signature explain every pruned matching segment?
                 explained = any((ob.get("gram") or ob.get("notoken")) and ob["col"] == t["schema"][0] for ob in t["atoms"]) and \
                     all(bloom_predict(bloom_seg_tree(t, sgi, corrected=True)) for sgi in range(t["segcnt"]) if t["match"][sgi])
+            if not explained and t["in"].get("vertical") and t["schema"] and not t["err"] and vmode == "current" and \
+                    any(b["op"] == "match" and b["col"] != t["schema"][0] for b in batoms(t["in"]["cond"])) and \
+                    all(bloom_predict(bloom_seg_tree(t, sgi, vmode="repaired")) for sgi in range(t["segcnt"]) if t["match"][sgi]):
+                if ck.match_finding(F_VERT):
+                    ck.known_finding(F_VERT, "a segment with a matching row is pruned by the detached (vertical) filter reader: a MATCHPHRASE on a column the filter does not cover evaluates to 'absent'")
+                    verdicts["known_vert"] += 1
+                    continue
             if explained and ck.match_finding(F_GRAM):
                 ck.known_finding(F_GRAM, "a segment with a matching row is pruned: the reader looks up a multi-token gram hash (or no token) that the writer never inserts")
                 verdicts["known_gram"] += 1
@@ -524,8 +549,9 @@ def main(ck):
     ncorpus = len(cases)
     if n:
         nb = 600 if ck.tier == "quick" else 8000
-        rc, cs, out = run_harness(ck, binp, ["bloom", str(nb)])
-        if rc != 0 or len(cs) != nb:
+        nv = 6 if ck.tier == "quick" else 60
+        rc, cs, out = run_harness(ck, binp, ["bloom", str(nb), str(nv)])
+        if rc != 0 or len(cs) != nb + nv:
             ck.broken.append("harness c20 bloom failed rc=%d cases=%d/%d: %s" % (rc, len(cs), nb, out[-400:]))
             return
         bcases += cs
@@ -544,7 +570,7 @@ def main(ck):
             ck.broken.append("harness c20 failed rc=%d cases=%d/%d: %s" % (rc, len(cs), n, out[-400:]))
             return
         cases += cs
-    bverd, bbroken = bloom_stream(ck, bcases) if bcases else ({"known_gram": 0, "violation": 0}, [])
+    bverd, bbroken = bloom_stream(ck, bcases) if bcases else ({"known_gram": 0, "known_vert": 0, "violation": 0}, [])
     for msg, t in bbroken[:3]:
         ck.broken.append(msg)
     if bbroken and not ck.violations:
